@@ -13,6 +13,7 @@
   Theorems:
     ifft_radix2_twiddle_inverts     mpir_ifft_radix2_twiddle ∘ mpir_fft_radix2_twiddle = 2n (every depth, r, c, rs, ws)
     ifft_trunc1_twiddle_recovers    the truncated twiddled inverse recovers the first `trunc` coefficients (2n-fold)
+    ifft_mfa_trunc_sqrt2_inverts    mpir_ifft_mfa_trunc_sqrt2 ∘ mpir_fft_mfa_trunc_sqrt2 = 4n on the entries below `trunc`
     ifft_mfa_outer_recovers         the column passes of the inverse MFA, applied to k times the column-transformed
                                     matrices, give k·n2·2/(4n) times the coefficients
     mfa_convolution_chain           outer, inner (row transforms, mpn_mulmod_Bexpp1, inverse row transforms), inverse
@@ -21,6 +22,7 @@
     mul_fft_main_val                BOTH paths of mpn_mul_fft_main return the product, for all operand lengths
 -/
 import MpirProofs.Lemmas.FftXMfaMulMain
+import MpirProofs.Lemmas.FftXMfaFull
 import MpirProofs.Props.C01_fftx
 namespace Mpir.FftX
 open Mpir Finset
@@ -74,6 +76,45 @@ example : TruncOk 2 6 := by unfold TruncOk; decide
 example : ((ifft_trunc1_twiddle 2 16 2 0 3 1 6
     ((fft_radix2_twiddle 2 16 2 0 3 1 [1, 2, 3, 4, 5, 6, 7, 8]).take 6 ++ [56, 64])).take 6).map (· % pOf 64) =
     [8, 16, 24, 32, 40, 48] := by decide +kernel
+
+/-! ### the inverse matrix Fourier transform -/
+
+/-- mpir_ifft_mfa_trunc_sqrt2 inverts mpir_fft_mfa_trunc_sqrt2: for a coefficient vector xs (4n entries, zero from `trunc`
+    on — the precondition of the forward transform) and any array ys that is congruent to the forward transform of xs in
+    the places that the forward transform defines — the whole first half matrix and the rows rev s, s < (trunc − 2n)/n1, of
+    the second half — the inverse returns the 4n-fold coefficients in every place below `trunc` (whatever the other
+    entries of ys hold).  n1 = 2^(e1+1) columns, n2 = 2^(e2+1) rows, n = n1·n2/2, trunc a multiple of 2·n1 in (2n, 4n].
+    Row passes (revbin swaps + mpir_ifft_radix2) undo the row transforms, column passes (revbin swaps +
+    mpir_ifft_radix2_twiddle / mpir_ifft_trunc1_twiddle, the recomputed entries, the inverse √2 layer) the column ones. -/
+theorem ifft_mfa_trunc_sqrt2_inverts (e1 e2 w trunc : Nat) (hd : 64 ∣ 2 ^ (e1 + e2 + 1) * w) (hw : 1 ≤ w)
+    (ht : TruncSOk (e1 + e2 + 1) trunc) (hdiv : 2 * 2 ^ (e1 + 1) ∣ trunc)
+    (xs : List Int) (hxl : xs.length = 4 * 2 ^ (e1 + e2 + 1)) (hz0 : ∀ j, trunc ≤ j → el xs j = 0)
+    (ys : List Int) (hyl : ys.length = 4 * 2 ^ (e1 + e2 + 1))
+    (h1 : ∀ j < 2 ^ (e2 + 1), ∀ t < 2 ^ (e1 + 1), el ys (j * 2 ^ (e1 + 1) + t) ≡
+      el (fft_mfa_trunc_sqrt2 (e1 + e2 + 1) w (2 ^ (e1 + 1)) trunc xs) (j * 2 ^ (e1 + 1) + t)
+      [ZMOD pOf (2 ^ (e1 + e2 + 1) * w)])
+    (h2 : ∀ s < (trunc - 2 * 2 ^ (e1 + e2 + 1)) / 2 ^ (e1 + 1), ∀ t < 2 ^ (e1 + 1),
+      el ys (2 * 2 ^ (e1 + e2 + 1) + rev (e2 + 1) s * 2 ^ (e1 + 1) + t) ≡
+      el (fft_mfa_trunc_sqrt2 (e1 + e2 + 1) w (2 ^ (e1 + 1)) trunc xs)
+        (2 * 2 ^ (e1 + e2 + 1) + rev (e2 + 1) s * 2 ^ (e1 + 1) + t) [ZMOD pOf (2 ^ (e1 + e2 + 1) * w)])
+    (p : Nat) (hp : p < trunc) :
+    el (ifft_mfa_trunc_sqrt2 (e1 + e2 + 1) w (2 ^ (e1 + 1)) trunc ys) p ≡ 2 ^ (e1 + e2 + 1 + 2) * el xs p
+      [ZMOD pOf (2 ^ (e1 + e2 + 1) * w)] := by
+  have hN : 2 ^ (e1 + 1) * 2 ^ (e2 + 1) = 2 * 2 ^ (e1 + e2 + 1) := by
+    rw [← pow_add, ← pow_succ']; congr 1; ring
+  apply toZ'
+  have := ifft_mfa_inverts (Int.castRingHom (ZMod (2 ^ (2 ^ (e1 + e2 + 1) * w) + 1))) e1 e2 w trunc hd hw (zmod_two_pow _)
+    ht hdiv xs hxl hz0 ys hyl (fun j hj t htt => (zmod_eq_iff _ _ _).mpr (h1 j hj t htt))
+    (fun s hs t htt => by rw [hN]; exact (zmod_eq_iff _ _ _).mpr (h2 s hs t htt)) p hp
+  rw [this]; simp
+
+-- non-vacuity: depth 3 (n = 8, 32 entries modulo 2^64+1, w = 8), n1 = 4, n2 = 4, trunc = 24 (two relevant rows of the second
+-- half: rows 0 and 2); every other entry of the second half replaced by garbage
+example : TruncSOk 3 24 := by unfold TruncSOk; decide
+example : let x : List Int := (List.range 24).map (fun i => ((i : Int) + 3) * 1000003) ++ List.replicate 8 0
+    let y := fft_mfa_trunc_sqrt2 3 8 4 24 x
+    let y' := (List.range 32).map fun k => if k < 16 ∨ (16 ≤ k ∧ k < 20) ∨ (24 ≤ k ∧ k < 28) then el y k else 77 - (k : Int)
+    ((ifft_mfa_trunc_sqrt2 3 8 4 24 y').take 24).map (fun v => v * 2 ^ (128 - 5) % pOf 64) = x.take 24 := by decide +kernel
 
 /-! ### the column passes of the inverse matrix Fourier transform -/
 
